@@ -396,9 +396,100 @@ class SmtJob:
                     detail += f" | replay error {e}"
                 results.append(Result(self.id, goal.id, REFUTED, f"SMT:{solver}", "", secs, detail, w, 1))
             else:
-                results.append(Result(self.id, goal.id, UNDECIDED, "SMT", "", secs, f"solvers returned unknown within {goal.timeout}s", None, 1))
+                # the solvers gave up: look for a concrete counterexample by sampling the requires (never a proof, only a way
+                # to turn "unknown" into a violation with an input replayed on the real function)
+                w = None
+                fals_err = ""
+                try:
+                    w = self._falsify(goal, V, O, req + (list(goal.extra_requires(V, O)) if goal.extra_requires else []), nfn, seed)
+                except Exception as e:
+                    w = None
+                    fals_err = f"; sampling failed: {type(e).__name__}: {e}"
+                if w is None:
+                    # third attempt: z3's dedicated QF_NRA strategy (the incremental default solver gives up earlier)
+                    try:
+                        s3 = z3.SolverFor("QF_NRA")
+                        s3.set("timeout", int(goal.timeout * 1000))
+                        for a_ in assum:
+                            s3.add(a_)
+                        s3.add(z3.Not(gz))
+                        r3 = s3.check()
+                        if r3 == z3.unsat:
+                            results.append(Result(self.id, goal.id, PROVED, "SMT:z3-qfnra", "", time.time() - t1, f"unsat by z3's QF_NRA strategy in {time.time() - t1:.1f}s", None, 1))
+                            continue
+                        if r3 == z3.sat:
+                            m3 = s3.model()
+                            vin = {s_.name: [[smt.model_value(m3, V[s_.name][i][j]) for j in range(s_.shape[1])] for i in range(s_.shape[0])] for s_ in self.inputs}
+                            if all(x is not None for n_ in vin for row in vin[n_] for x in row):
+                                vout = self.numeric(nfn, vin)
+                                if goal.numfn and goal.numfn(vin, vout) is False:
+                                    w = {"inputs": vin, "goal": goal.id, "outputs": vout}
+                    except Exception:
+                        pass
+                if w is not None:
+                    results.append(Result(self.id, goal.id, REFUTED, "SMT+SAMPLING", "", time.time() - t1,
+                                          f"solvers returned unknown within {goal.timeout}s; a sampled input satisfying the requires violates the postcondition on the real function: "
+                                          + ", ".join(f"{n}={w['inputs'][n]}" for n in w["inputs"])[:400], w, 1))
+                else:
+                    results.append(Result(self.id, goal.id, UNDECIDED, "SMT", "", secs, f"solvers returned unknown within {goal.timeout}s (no violating input among the samples either{fals_err})", None, 1))
         return results
 
+    def _falsify(self, goal, V, O, requires, nfn, seed, n_samples=3000):
+        if goal.numfn is None:
+            return None
+        import random
+        from fractions import Fraction
+        from z3 import z3util
+
+        def num(e, sub):
+            v = z3.simplify(z3.substitute(e, *sub)) if sub else z3.simplify(e)
+            if z3.is_rational_value(v):
+                return Fraction(v.numerator_as_long(), v.denominator_as_long())
+            if z3.is_algebraic_value(v):
+                return v.approx(20).as_fraction()
+            return None
+
+        flat = [(s, i, j, V[s.name][i][j]) for s in self.inputs for i in range(s.shape[0]) for j in range(s.shape[1])]
+        allvars = {}
+        for _, _, _, e in flat:
+            for v in z3util.get_vars(e):
+                allvars[str(v)] = v
+        rng = random.Random(seed + 991)
+        req_all = z3.And(requires) if requires else z3.BoolVal(True)
+        zero = [(v, z3.RealVal(0)) for v in allvars.values()]
+        for k in range(n_samples):
+            samp = {}
+            for s_ in self.inputs:
+                try:
+                    samp[s_.name] = s_.sample(rng)
+                except Exception:
+                    samp[s_.name] = [[rng.uniform(-2, 2) for _ in range(s_.shape[1])] for _ in range(s_.shape[0])]  # derived sort: value comes from its expression
+            if k % 3 == 1:  # also probe zeros, which random sampling never hits
+                samp = {n: [[(0.0 if rng.random() < 0.3 else x) for x in row] for row in m] for n, m in samp.items()}
+            assign = {}
+            for s_, i, j, e in flat:  # entries that are an affine function of ONE free variable fix that variable from the sort's sample
+                vs = z3util.get_vars(e)
+                if len(vs) == 1 and str(vs[0]) not in assign:
+                    b0 = num(e, zero)
+                    one = [(v, z3.RealVal(1 if str(v) == str(vs[0]) else 0)) for v in allvars.values()]
+                    b1 = num(e, one)
+                    if b0 is not None and b1 is not None and b1 != b0:
+                        assign[str(vs[0])] = (Fraction(samp[s_.name][i][j]) - b0) / (b1 - b0)
+            for nme in allvars:
+                assign.setdefault(nme, Fraction(rng.uniform(-2, 2)).limit_denominator(10 ** 6))
+            sub = [(allvars[n_], z3.RealVal(str(val))) for n_, val in assign.items()]
+            if not z3.is_true(z3.simplify(z3.substitute(req_all, *sub))):
+                continue
+            vals = [num(e, sub) for _, _, _, e in flat]
+            if any(x is None for x in vals):
+                continue
+            vin = {s.name: [[0.0] * s.shape[1] for _ in range(s.shape[0])] for s in self.inputs}
+            for (s_, i, j, _), x in zip(flat, vals):
+                vin[s_.name][i][j] = float(x)
+            vout = self.numeric(nfn, vin)
+            if goal.numfn(vin, vout) is False:
+                return {"inputs": vin, "goal": goal.id, "outputs": vout}
+        return None
     def replay(self, witness, tol=None):
         ins, outs, fn = self._fn(self.numeric_build)
         vin = witness["inputs"]
@@ -412,3 +503,4 @@ class SmtJob:
                 failing = True
                 msgs.append(f"{goal.id}: violated at the witness; outputs {str(vout)[:300]}")
         return failing, "; ".join(msgs)
+
